@@ -71,12 +71,15 @@ PROPS = {
  "C19": (True, "proof", T_P,
          "Proved for unbounded integers: every method of BTrees.Length, the resolution formula in both orders. "
          "Pickle/copy survival is a bounded run-time check.", "A1, A7", "7/C19"),
- "C04": (True, "proof", T_P + BOUNDED,
+ "C04": (True, "proof", T_P + "; " + T_C + BOUNDED,
          "Proved (Python): every leaf mutator requests registration exactly when the leaf's serialised state changes; every "
          "interior-node mutator (struct view: _set, _grow, _split_root, _del) registers every change of the node's own state "
          "(child list, separators, first bucket) and the change of an embedded oid-less leaf (thorough tier; C03 runs the same "
-         "proofs in the quick tier). Bounded: the C implementation, commit/reload/abort end to end with a stub data manager (persist_rt).",
-         "A1-A3, A7; L-persist argued in DESIGN.md 5.4; T-DIRTY for C not built; recorded finding: non-root node inlining its only leaf; "
+         "proofs in the quick tier). Proved (C): T-DIRTY - on every success exit, every node whose serialised state was written in "
+         "the activation is registered, freshly constructed, or a debt handed to the caller. Bounded: commit/reload/abort end to end "
+         "with a stub data manager, both implementations (persist_rt).",
+         "A1-A7; L-persist argued in DESIGN.md 5.4; T-DIRTY assumes the first insertion into an empty C tree registers it through the "
+         "embedded-leaf rule and does not see writes through item pointers; recorded finding: non-root node inlining its only leaf; "
          "fixed: fsBucket.fromString did not register (77c333c)", "7/C04 and 12.7"),
  "C05": (True, "proof", T_C + BOUNDED,
          "Proved for every function of the translation units, every exit: no pin outlives the call (T-PIN), and every access to a node's vectors "
